@@ -255,8 +255,20 @@ def build_harness(bin_name, features=None, hooks=False, timeout=1500):
     """cargo build of harness bin against /repo's working tree.  features: None = default (full);
     'seq' = --no-default-features (sequential reader).  Returns (exe|None, log)."""
     hd = os.path.join(ROOT, 'harness')
-    lock = os.path.join(hd, 'Cargo.lock')
     target = CARGO_TARGET + ('-hooks' if hooks else '')
+    if REPO != '/repo':
+        # scratch copy of the repository (mutation testing): same harness sources, other path dependency
+        tag = hashlib.sha256(REPO.encode()).hexdigest()[:10]
+        alt = os.path.join(BUILD, 'harness-' + tag)
+        with Lock('cargo-alt-' + tag):
+            if os.path.isdir(alt):
+                shutil.rmtree(alt)
+            shutil.copytree(hd, alt, ignore=shutil.ignore_patterns('target', 'Cargo.lock'))
+            ct = open(os.path.join(alt, 'Cargo.toml')).read().replace('path = "/repo"', 'path = "%s"' % REPO)
+            open(os.path.join(alt, 'Cargo.toml'), 'w').write(ct)
+        hd = alt
+        target = os.path.join(BUILD, 'cargo-' + tag) + ('-hooks' if hooks else '')
+    lock = os.path.join(hd, 'Cargo.lock')
     env = {'CARGO_TARGET_DIR': target, 'CARGO_NET_OFFLINE': 'true'}
     if hooks:
         env['RUSTFLAGS'] = GUARD_RUSTFLAGS
